@@ -98,6 +98,11 @@ func generate(r *rng.R, thorough bool, index int) *history {
 	// tasks of equal priority in sibling invocations, clock steps of the
 	// order of the stickiness windows
 	policy := index%3 == 2
+	// every third history concentrates on size-class retries: one predeclared
+	// queue with 2-3 size classes, workers on the smallest and the largest,
+	// learners that retry on the largest, many failing completions, workers
+	// that re-request their task (Idle re-synchronisation while executing)
+	retry := index%3 == 1
 	h := &history{Cfg: genCfg(r)}
 	w := newWorld(h.Cfg)
 	defer w.ct.shutdown()
@@ -139,13 +144,16 @@ func generate(r *rng.R, thorough bool, index int) *history {
 	// platform queues
 	var pqs []genPQ
 	npre := r.Intn(3)
-	if policy {
+	if policy || retry {
 		npre = 1
 	}
 	prefixes := [][]uint64{{}, {1}, {1, 2}, {2}}
 	for i := 0; i < npre; i++ {
 		p := genPQ{prefix: prefixes[r.Intn(len(prefixes))], plat: uint64(r.Intn(2)), pre: true}
 		nsc := 1 + r.Intn(3)
+		if retry {
+			nsc = 2 + r.Intn(2)
+		}
 		for s := 0; s < nsc; s++ {
 			p.scs = append(p.scs, uint32(1+s*2+r.Intn(2)))
 		}
@@ -173,14 +181,24 @@ func generate(r *rng.R, thorough bool, index int) *history {
 	// workers
 	var workers []workerJSON
 	nw := 1 + r.Intn(6)
+	if retry {
+		nw = 2 + r.Intn(3)
+	}
 	if policy {
 		nw = 1 + r.Intn(3)
 	}
 	for i := 0; i < nw; i++ {
 		var sk skeyJSON
-		if len(pqs) > 0 && (policy || r.Chance(75)) {
+		if len(pqs) > 0 && (policy || retry || r.Chance(75)) {
 			p := pqs[r.Intn(len(pqs))]
 			sk = skeyJSON{Prefix: p.prefix, Plat: p.plat, SC: p.scs[r.Intn(len(p.scs))]}
+			if retry {
+				// alternate between the smallest and the largest size class
+				sk.SC = p.scs[0]
+				if i%2 == 1 {
+					sk.SC = p.scs[len(p.scs)-1]
+				}
+			}
 		} else {
 			sk = skeyJSON{Prefix: prefixes[r.Intn(len(prefixes))], Plat: uint64(r.Intn(2)), SC: uint32(r.Intn(2))}
 			known := false
@@ -320,6 +338,18 @@ func generate(r *rng.R, thorough bool, index int) *history {
 				ex.Keys = keyPaths[3+r.Intn(5)]
 			}
 			ex.Learner = genLearner(r, &learnerID, nsc, 0)
+			if retry {
+				ex.Inst = append(append([]uint64{}, pqs[0].prefix...), instances[r.Intn(2)]...)
+				ex.Plat = pqs[0].plat
+				ex.Digest = uint64(r.Intn(16))*2 + pqs[0].plat%2
+				ex.DNC = ex.Digest%5 == 3
+				ex.SelIdx = 0
+				nsc = len(pqs[0].scs)
+				ex.Learner = genLearner(r, &learnerID, nsc, 0)
+				if ex.Learner.Fail == nil {
+					ex.Learner.Fail = &failScript{Dur: int64(r.Intn(50)) * sec, Timeout: int64(1+r.Intn(100)) * sec, L: genLearner(r, &learnerID, nsc, 2)}
+				}
+			}
 			do(opJSON{K: "exec", C: newCall(), DT: dt(), Exec: ex})
 		case x < 80:
 			wk := workers[r.Intn(len(workers))]
@@ -332,11 +362,18 @@ func generate(r *rng.R, thorough bool, index int) *history {
 			if policy && has {
 				y = r.Intn(45) // workers mostly finish their task and ask for the next one
 			}
+			if retry && has {
+				y = []int{10, 10, 50, 50, 80, 80, 80}[r.Intn(7)] // done / still executing / lost it (Idle)
+			}
 			switch {
 			case has && y < 45:
 				o.St, o.D, o.RTag = "done", d, respTag
 				respTag++
-				switch z := r.Intn(10); {
+				z := r.Intn(10)
+				if retry {
+					z = 4 + r.Intn(6) // mostly failures, so that learners retry on the largest size class
+				}
+				switch {
 				case z < 6:
 					o.RCode, o.RExit = 0, 0
 				case z < 7:
